@@ -735,8 +735,7 @@ theorem extractRange_eq_AT (s : String) :
 def frameTy : String := "map[string]interface {}"
 
 /-- `processRange`: the attribute value without one surrounding pair of quotes -/
-def rangeValue (av : String) : String :=
-  RN.trimSuffixS (RN.trimPrefixS (RN.trimSuffixS (RN.trimPrefixS av "'") "'") "\"") "\""
+def rangeValue (av : String) : String := stripOwnQuotes av
 
 /-- the header `(indexName, itemName, objName)` of a range attribute value -/
 def rangeHeader (av : String) : String × String × String := extractRange (rangeValue av)
